@@ -214,6 +214,8 @@ func builtinIntrinsics() map[string]intrinsic {
 		m.schedSymbolic = boolTerm(a[0]).IsTrue()
 		return nil
 	}
+	I[vpPkg+"SetTimerBudget"] = func(m *Machine, _ *frame, a []Value) Value { m.timerBudget = m.argInt(a[0]); return nil }
+	I[vpPkg+"AdvanceClock"] = func(m *Machine, _ *frame, a []Value) Value { m.clock += int64(m.argInt(a[0])); return nil }
 	I[vpPkg+"TimersFired"] = func(m *Machine, _ *frame, a []Value) Value { return m.f.Const(64, uint64(m.timersFired)) }
 
 	// ---- runtime / internal ----
